@@ -29,7 +29,7 @@ inductive Call
 inductive Tok
   /-- `<name` + namespace declarations + attributes (names as written) -/
   | open_ (name : Str) (decls : List (Pfx × Str)) (attrs : List (Str × Str))
-  /-- character data, written through `escape` -/
+  /-- character data, written through `escape` with `\r` as `&#13;` -/
   | text (s : Str)
   /-- `ignorableWhitespace`: written as is -/
   | raw (s : Str)
@@ -54,6 +54,15 @@ def escape (data : Str) : Str :=
 /-- `escape(data, {'\n': '&#10;', '\r': '&#13;', '\t': '&#9;'})` -/
 def escapeAttr (data : Str) : Str :=
   replaceChar (replaceChar (replaceChar (escape data) '\n' ent10) '\r' ent13) '\t' ent9
+
+/-- `escape(content, {"\r": "&#13;"})` — character data as `XmlGenerator.characters`
+(serializers/writers/native.py) writes it -/
+def escapeText (data : Str) : Str := replaceChar (escape data) '\r' ent13
+
+/-- `escape(uri, {'"': "&quot;", "\n": "&#10;", "\r": "&#13;", "\t": "&#9;"})` — a namespace
+uri as `XmlGenerator.startPrefixMapping` queues it for the declaration -/
+def escapeDecl (uri : Str) : Str :=
+  replaceChar (replaceChar (replaceChar (replaceChar (escape uri) '"' quot) '\n' ent10) '\r' ent13) '\t' ent9
 
 /-- `quoteattr(data)` -/
 def quoteattr (data : Str) : Str :=
@@ -146,9 +155,9 @@ def xmlnsLit : Str := ['x', 'm', 'l', 'n', 's']
 
 def renderDecl : Pfx × Str → Str
   | (some p, uri) =>
-    if p.isEmpty then ' ' :: xmlnsLit ++ '=' :: '"' :: uri ++ ['"']
-    else ' ' :: xmlnsLit ++ ':' :: p ++ '=' :: '"' :: uri ++ ['"']
-  | (none, uri) => ' ' :: xmlnsLit ++ '=' :: '"' :: uri ++ ['"']
+    if p.isEmpty then ' ' :: xmlnsLit ++ '=' :: '"' :: escapeDecl uri ++ ['"']
+    else ' ' :: xmlnsLit ++ ':' :: p ++ '=' :: '"' :: escapeDecl uri ++ ['"']
+  | (none, uri) => ' ' :: xmlnsLit ++ '=' :: '"' :: escapeDecl uri ++ ['"']
 
 def renderAttr (a : Str × Str) : Str := ' ' :: a.1 ++ '=' :: quoteattr a.2
 
@@ -161,7 +170,7 @@ def render : List Tok → Str
   | [.open_ n d a] => renderOpen n d a            -- `endDocument` does not finish a pending start tag
   | .open_ n d a :: .close _ :: r => renderOpen n d a ++ '/' :: '>' :: render r
   | .open_ n d a :: r => renderOpen n d a ++ '>' :: render r
-  | .text s :: r => escape s ++ render r
+  | .text s :: r => escapeText s ++ render r
   | .raw s :: r => s ++ render r
   | .close n :: r => '<' :: '/' :: n ++ '>' :: render r
 
